@@ -135,16 +135,28 @@ template <class T> struct Runner {
                 auto E = [&](size_t i) { return Elem<T>::make(*m[i]); };
                 {
                 alloctrack::Scope t;
+                // c bit 2: the SAME initializer_list object is read twice (a helper that fills two arrays from one list parameter):
+                // both arrays must hold exactly the listed values - the constructor may not consume the list
+                auto from_list = [&](std::initializer_list<T> il) {
+                    sl.a.reset(new A(il));
+                    if ((o.c & 4) && k > 0) {
+                        A second(il);
+                        VF_CHECK(second.size() == k, "CONTENT", "%s: second Array built from the same initializer_list has size %zu, expected %zu", when, second.size(), k);
+                        for (size_t i = 0; i < k && i < second.size(); ++i)
+                            VF_CHECK(Elem<T>::val(second[i]) == *m[i], "CONTENT", "%s: second Array built from the same initializer_list holds %d at [%zu], the list says %d", when, Elem<T>::val(second[i]), i, *m[i]);
+                        label("two_arrays_from_one_list");
+                    }
+                };
                 switch (k) {
                 case 0: sl.a.reset(new A(std::initializer_list<T>{})); break;
-                case 1: sl.a.reset(new A{E(0)}); break;
-                case 2: sl.a.reset(new A{E(0), E(1)}); break;
-                case 3: sl.a.reset(new A{E(0), E(1), E(2)}); break;
-                case 4: sl.a.reset(new A{E(0), E(1), E(2), E(3)}); break;
-                case 5: sl.a.reset(new A{E(0), E(1), E(2), E(3), E(4)}); break;
-                case 6: sl.a.reset(new A{E(0), E(1), E(2), E(3), E(4), E(5)}); break;
-                case 7: sl.a.reset(new A{E(0), E(1), E(2), E(3), E(4), E(5), E(6)}); break;
-                default: sl.a.reset(new A{E(0), E(1), E(2), E(3), E(4), E(5), E(6), E(7)}); break;
+                case 1: if (o.c & 4) from_list({E(0)}); else sl.a.reset(new A{E(0)}); break;
+                case 2: if (o.c & 4) from_list({E(0), E(1)}); else sl.a.reset(new A{E(0), E(1)}); break;
+                case 3: if (o.c & 4) from_list({E(0), E(1), E(2)}); else sl.a.reset(new A{E(0), E(1), E(2)}); break;
+                case 4: from_list({E(0), E(1), E(2), E(3)}); break;
+                case 5: from_list({E(0), E(1), E(2), E(3), E(4)}); break;
+                case 6: from_list({E(0), E(1), E(2), E(3), E(4), E(5)}); break;
+                case 7: from_list({E(0), E(1), E(2), E(3), E(4), E(5), E(6)}); break;
+                default: from_list({E(0), E(1), E(2), E(3), E(4), E(5), E(6), E(7)}); break;
                 }
                 }
                 sl.m = m;
